@@ -32,6 +32,8 @@ pub enum Issue {
     HiByte { word: u16, command: bool },
     /// memory write continue (0x3C) - never part of a well-formed drawing call here
     WriteContinue,
+    /// a bulk repeat whose words per pixel do not match the announced pixel format
+    BulkFormatMismatch { words: u8, colmod: u8 },
 }
 
 #[derive(Clone, Debug, PartialEq, Eq)]
@@ -474,9 +476,10 @@ impl Controller {
         let aligned = self.in_ramwr && self.acc_n == 0 && wpp == Some(words.len() as u8) && !self.reset_low;
         if small || !aligned {
             if !small {
-                std::panic::panic_any(crate::world::SimAbort::Harness(
-                    "bulk repeat not aligned to a pixel".into(),
-                ));
+                // cannot be decoded pixel by pixel in reasonable time: record and drop
+                let (words, colmod) = (words.len() as u8, self.colmod);
+                self.issue(Issue::BulkFormatMismatch { words, colmod });
+                return;
             }
             for _ in 0..count {
                 for &w in words {
